@@ -19,6 +19,7 @@ const (
 	FaultEACCES   FSFault = "eacces"
 	FaultDevFull  FSFault = "devfull"  // hand out /dev/full for a write open
 	FaultReadOnly FSFault = "readonly" // hand out a read-only handle for a write open
+	FaultEMFILE   FSFault = "emfile"   // "too many open files" for a write open
 )
 
 // FSEvent is one call that reached the OpenFile seam.
@@ -82,6 +83,8 @@ func (f *SimFS) Open(name string, flag int, perm os.FileMode) (*os.File, error) 
 		err = &fs.PathError{Op: "open", Path: name, Err: syscall.ENOENT}
 	case fault == FaultEACCES:
 		err = &fs.PathError{Op: "open", Path: name, Err: syscall.EACCES}
+	case fault == FaultEMFILE && write:
+		err = &fs.PathError{Op: "open", Path: name, Err: syscall.EMFILE}
 	case fault == FaultDevFull && write:
 		file, err = os.OpenFile("/dev/full", os.O_WRONLY, 0)
 	case fault == FaultReadOnly && write:
